@@ -24,6 +24,7 @@ func init() {
 			"R5": "signals carry the validated index; a pay becomes a ready-group signal exactly while antes or blinds are collected (event of the hand's own state) and goes to the backend otherwise",
 			"R6": "auto-next on round close; state channel closed once on game close",
 			"R7": "response timeout wiring",
+			"R10": "the answer of an asked player is refused only by the hand's own move validator (unknown player / answer not allowed / no group), for an unknown event, or by the backend: the methods that signal the ready group for their caller have no other source of a refusal — an extra plausibility test (amount against the stack, …) keeps an asked player's answer from the group and the hand waits for the time limit",
 			"R9": "each asked player is allowed the matching answer (ready / pay) in the same step and nobody else; after the group step succeeded the allowance is filtered out of every player's actions (others kept) and the ante / blinds received-hook gets the new state; the ante collection is skipped only when no ante is configured",
 			"R8": "state propagation: the hand keeps and queues a clone of every new state unless closed; the consumer dispatches it; the dispatcher runs the event handler and then the engine hook; the hook (registered before Start) stores the state in the table, runs settle → continue on game-closed and publishes game-updated otherwise",
 		},
@@ -38,6 +39,7 @@ func checkC11(c *Ctx) {
 	// R8: every new hand state travels hand → queue → dispatcher → engine hook → table and is published
 	checkUpdateHook(c, "R8", "register", "store", "dispatch", "publish", "pump")
 	checkPayRouting(c, "R5")
+	checkAnswerNotRefused(c, "R10")
 	gt := p.singleImpl("", "Game")
 	if gt == nil {
 		c.Bad("R1", "anchors", "-", "hand implementation not found")
@@ -658,4 +660,72 @@ func checkBlindsAskTable(c *Ctx, p *Prog, f *ssa.Function, adds []rgOp, key stri
 	for _, amt := range []string{"BB", "SB", "Dealer"} {
 		c.Check(msg == "", "R4", key+":asks-position:"+amt, where, "asked iff some Blind.X > 0 ∧ the player holds position X (truth table over the loop body)", "blinds handler: "+msg+" — a player is asked exactly when a blind amount is configured for a position they hold (BB↔bb, SB↔sb, Dealer↔dealer)")
 	}
+}
+
+// checkAnswerNotRefused (C11.R10): see the rule text. Group answers = methods of the hand that signal the ready
+// group for an index derived from their own parameter.
+func checkAnswerNotRefused(c *Ctx, rule string) {
+	p := c.P
+	gt := p.singleImpl("", "Game")
+	if gt == nil {
+		c.Bad(rule, "anchors", "-", "hand implementation not found")
+		return
+	}
+	n := 0
+	for _, f := range p.Methods(gt) {
+		if f.Parent() != nil || len(f.Params) < 2 || errResultIndex(f.Signature) < 0 {
+			continue
+		}
+		answers := false
+		for _, o := range p.rgOps(f, 0) {
+			if o.Op == "Ready" {
+				answers = true
+			}
+		}
+		if !answers {
+			continue
+		}
+		n++
+		ei := errResultIndex(f.Signature)
+		ok, where, d := true, p.Pos(f.Pos()), ""
+		nRef := 0
+		for _, b := range f.Blocks {
+			r, isR := b.Instrs[len(b.Instrs)-1].(*ssa.Return)
+			if !isR || ei >= len(r.Results) {
+				continue
+			}
+			rs := retSyms(p, r)
+			e := rs[ei].Strip()
+			if e.IsNil() {
+				continue
+			}
+			nRef++
+			good := false
+			switch {
+			case e.Kind == "call" && e.Call != nil && e.Call.Common().StaticCallee() != nil:
+				sc := e.Call.Common().StaticCallee()
+				// the hand's own validators, by role: methods of the hand (index[, action]) → error that store nothing
+				// the validator is the method's first action: its entry validation
+				var first ssa.CallInstruction
+				for _, ci := range Calls(f) {
+					if isLogCall(ci) {
+						continue
+					}
+					first = ci
+					break
+				}
+				good = sc.Signature.Recv() != nil && namedOf(recvTypeOf(sc)) == gt && sc.Signature.Results().Len() == 1 && first != nil && ssa.Instruction(e.Call) == ssa.Instruction(first)
+			case e.Kind == "extract" && e.Args[0].Strip().Kind == "call" && e.Args[0].Strip().Call != nil && isBackendCall(e.Args[0].Strip().Call.Common()):
+				good = true
+			case e.Kind == "global" && strings.HasSuffix(e.Name, "ErrGameUnknownEvent"):
+				good = true
+			}
+			if !good {
+				ok, where, d = false, p.InstrPos(r), e.String()
+			}
+		}
+		c.Check(ok && nRef >= 1, rule, "answer-refused-only-by-validator:"+fnName(f), where, fmt.Sprintf("%d refusal exit(s): validator / unknown event / backend", nRef),
+			fnName(f)+" refuses the answer of an asked player for a reason of its own ("+d+"): the answer never reaches the ready group and the hand waits for the time limit")
+	}
+	c.Min(rule, "hand methods that answer for one player", n, 2)
 }
